@@ -153,6 +153,7 @@ def _chunk(params, lo, hi):
         if (idx + off) % 4 == 0:
             # tiny iteration budgets: the answer may be MAX_ITER (exempt) but never a wrong verdict
             runs += [("solve_lp", solve_lp, check_simplex, {"max_iter": k}) for k in (1, 2, 3)]
+            runs += [("solve_lp_interior", solve_lp_interior, check_interior, {"max_iter": k}) for k in (1, 2, 4, 8)]
         for fname, fn, chk, kw in runs:
             if solver != "both" and solver != fname:
                 continue
